@@ -435,6 +435,11 @@ def check_rest(ctx, fx, cfg):
     from props import c17
     if cfg != "bare":  # without a runtime feature there is no spawner, hence no join
         c17.check_join(ctx, fx, cfg, "R02.6")
+    # R02.10 (shared with C12) every waiting send resolves when the queue drains or closes: it waits on a sender clone of its
+    # own — waiters sharing one handle overwrite each other's parked waker and are not all woken
+    if cfg != "bare":
+        from props import c12 as _c12
+        core.shared(ctx, "R02.10", _c12.check_waiting_send, ctx, fx, cfg, chan.submit_closures(fx), [0], "R02.10")
     # R02.7 closed list of hand-written poll functions (a Pending path that registers no waker hangs its awaiter; whether it
     # does is not decidable here, so a new implementation is reported for review): today only `impl Future for Addr`
     polls = sorted((i.get("trait"), i["self"]) for i in fx.d["impls"] if i.get("trait") in ("futures_core::stream::Stream", "core::future::future::Future", "futures_core::future::FusedFuture", "futures_core::stream::FusedStream", "futures_sink::Sink", "core::future::into_future::IntoFuture"))
